@@ -104,7 +104,10 @@ pub fn check_seq_sel(ctx: &Ctx, pool: &Pool, rows: usize, seq: &[Ev], count_edge
     ctx.evals(seq.len().max(1) as u64);
     let rep = json!({"kind": "keys", "rows": rows, "events": seq.iter().map(|e| e.json()).collect::<Vec<_>>()});
     let fail = |sig: &str, d: String| Failure::new(format!("c17:{sig}"), d, rep.clone());
-    let ans = pool.with(|d| d.call(&json!({"cmd": "keys", "rows": rows, "width": 80, "events": seq.iter().map(|e| e.json()).collect::<Vec<_>>()})));
+    let ans = pool.call(&json!({"cmd": "keys", "rows": rows, "width": 80, "events": seq.iter().map(|e| e.json()).collect::<Vec<_>>()}));
+    if let Some(m) = ans["driver_crashed"].as_str() {
+        return Err(fail("driver-crashed", format!("the jet1090 process died twice on this event sequence (abort / stack overflow outside catch_unwind): {m}")));
+    }
     let states = ans["states"].as_array().cloned().unwrap_or_default();
     let mut m = Model::start(80);
     for (i, e) in seq.iter().enumerate() {
